@@ -287,6 +287,48 @@ pub fn worker(w: &mut Worker) {
         }
     }
 
+    // (e) a collection changed while a loop iterates over it
+    let mutators = [
+        "array_clear ${arr}",
+        "array_pop ${arr}",
+        "array_remove ${arr} 0",
+        "release ${arr}",
+        "array_push ${arr} more",
+        "array_set ${arr} 0 changed",
+        "arr = array other",
+        "unset arr",
+        "x = array_pop ${arr}\narray_pop ${arr}",
+    ];
+    for m in mutators {
+        for size in 0..4usize {
+            for wrap in 0..3usize {
+                if !w.take() {
+                    continue;
+                }
+                let items: Vec<String> = (0..size).map(|i| format!("v{}", i)).collect();
+                let body = match wrap {
+                    0 => m.to_string(),
+                    1 => format!("if true\n{}\nend", m),
+                    _ => format!("echo ${{x}}\n{}\necho after", m),
+                };
+                let text = format!("arr = array {}\nfor x in ${{arr}}\n{}\nend\necho done", items.join(" "), body);
+                let cj = json!({"kind": "script", "script": text});
+                w.begin(|| cj.clone());
+                steps.set(0);
+                let mut ctx = Context::new();
+                ctx.commands = commands.clone();
+                let (env, _o, _e, h) = quiet_env();
+                *w.watch_slot().halt.lock().unwrap() = Some(h);
+                let r = guarded(|| runner::run_script(&text, ctx, Some(env)));
+                w.add_transitions(1);
+                match r {
+                    Err(p) => w.fail(&format!("panic:loop-mutation:{}", m.split(' ').next().unwrap_or("")), &format!("script {:?}: panic {}", text, p), cj),
+                    Ok(res) => w.pass(true, hash64(&("loop-mutation", res.is_ok(), size))),
+                }
+            }
+        }
+    }
+
     // (d) include cycles (a file that includes itself, and a cycle of two files)
     for variant in 0..2usize {
         if !w.take() {
@@ -373,7 +415,7 @@ pub fn crash_sig(case: &Value, kind: &str) -> String {
     }
 }
 
-pub const RULE: &str = "(a) every registered command of the standard library (discovered at run time; excluded: read, sleep, exec, spawn, exit, watchdog, everything under std::net, test_directory/test_file, cd, temp_file/temp_dir) x every argument tuple up to the arity bound from a 21-value pool {empty, a, 'a b', multi-byte, -1, 0, 1, 2.5, 20-digit number, i64::MAX, live array/map/set/byte-array handle, an array containing its own handle, a map whose child array points back to it, released handle, -r, text with a line break, a flag (--copy/--prefix/--collection/--file)}, each on a freshly prepared context in a scratch working directory; (b) 15 two-step histories (use after release, push/pop --copy of undefined and repeated names, removed or shadowed commands used by library scripts); (c) every script of up to n lines over 24 awkward lines (unmatched end/else/elseif/return, fn without name or end, for without array, goto to a missing label, goto loops, calls of undefined functions, ...) run with every command counted and the halt flag raised after 400 command entries; (d) a file that includes itself and a two-file include cycle. Oracle: control returns with Ok or Err; a panic is caught and reported; an abort (stack overflow) or a hang (no return within 4 s) kills the worker process, is pinned to the case in flight by the supervisor and reported";
+pub const RULE: &str = "(a) every registered command of the standard library (discovered at run time; excluded: read, sleep, exec, spawn, exit, watchdog, everything under std::net, test_directory/test_file, cd, temp_file/temp_dir) x every argument tuple up to the arity bound from a 21-value pool {empty, a, 'a b', multi-byte, -1, 0, 1, 2.5, 20-digit number, i64::MAX, live array/map/set/byte-array handle, an array containing its own handle, a map whose child array points back to it, released handle, -r, text with a line break, a flag (--copy/--prefix/--collection/--file)}, each on a freshly prepared context in a scratch working directory; (b) 15 two-step histories (use after release, push/pop --copy of undefined and repeated names, removed or shadowed commands used by library scripts); (c) every script of up to n lines over 24 awkward lines (unmatched end/else/elseif/return, fn without name or end, for without array, goto to a missing label, goto loops, calls of undefined functions, ...) run with every command counted and the halt flag raised after 400 command entries; (d) a file that includes itself and a two-file include cycle; (e) for-in loops whose body clears, pops, removes from, releases, grows, replaces or unsets the array being iterated (sizes 0..3, three body shapes). Oracle: control returns with Ok or Err; a panic is caught and reported; an abort (stack overflow) or a hang (no return within 4 s) kills the worker process, is pinned to the case in flight by the supervisor and reported";
 pub const ASSUMPTIONS: &[&str] = &["values that would request huge allocations are not in the pool (allocation failure aborts by design of Rust)", "loop constructs are allowed to loop: they are ended through the halt flag, which is the embedder's documented way"];
 pub const EXHAUSTIVE: bool = true;
 pub const WALL_CAP_S: (u64, u64) = (58, 1700);
